@@ -94,7 +94,7 @@ PROPS = {
  "C12": dict(
    corr=[("bytes-rand", "scan", 2000, 100000, "status"), ("bytes-rand", "parse", 3000, 150000, "status"), ("prog-mut", "compile", 3000, 150000, "status"),
          ("deep", "compile", 300, 15000, "status"), ("deep", "parse", 300, 15000, "status"), ("walk", "walk", 2000, 100000, "status"), ("prog-params", "compile", 1500, 75000, "status")],
-   oracle=[("bytes-rand", "oracle-C12", 3000, 150000), ("prog-mut", "oracle-C12", 3000, 150000), ("deep", "oracle-C12", 300, 15000), ("prog-params", "oracle-C12", 1500, 75000), ("bytes-exh-3", "oracle-C12", 0, 0)],
+   oracle=[("bytes-rand", "oracle-C12", 3000, 150000), ("prog-mut", "oracle-C12", 3000, 150000), ("deep", "oracle-C12", 300, 15000), ("prog-params", "oracle-C12", 1500, 75000), ("bytes-exh-3", "oracle-C12", 0, 0), ("letchain", "oracle-C12-growth", 20, 100)],
    corpus=["parse.txt", "lex.txt", "compile.txt"], tables=["Gen/AstTables.v: walk_children"],
    assumptions=["wall-clock time, Go stack growth and allocation are observed by the harness watchdog (5 s per call), not proved"]),
  "C13": dict(
